@@ -2,6 +2,7 @@
 // against a model of (attached?, valid requested time) per node.  Callbacks may invalidate,
 // detach, attach and re-parent nodes; the unit of observation is the wait boundary (DESIGN C20).
 #include "engine/harness.h"
+#include <algorithm>
 #include "util/PulseNode.h"
 #include "system/SetupSystem.h"
 #include <vector>
@@ -47,15 +48,20 @@ struct TNode : public PulseNode {
 static bool IsAncestor(int a, int b);
 static bool IsAttached(int i) {while(true) {TNode * n = g_nodes[i]; if (!n->alive) return false; if (n->parent == -2) return true; if (n->parent == -1) return false; i = n->parent;}}
 static bool IsAncestor(int a, int b) {/* is a an ancestor of (or equal to) b */ while(b >= 0) {if (a == b) return true; b = g_nodes[b]->parent;} return false;}
-static bool g_allowCbMut = true; static uint64_t g_mutThisRound = 0, g_deferrals = 0, g_rounds = 0, g_roundsWithMut = 0;
+static std::set<int> g_mayBeOnStack; static uint64_t g_cbDestroys = 0; static bool g_allowCbMut = true; static uint64_t g_mutThisRound = 0, g_deferrals = 0, g_rounds = 0, g_roundsWithMut = 0;
 static void CallbackMutations(int self)
 {
    if (g_allowCbMut == false) return;
    const int N = (int)g_nodes.size();
+   // The pulse is running inside PulseAux() of the callback's node and of every node above it -- whatever earlier callbacks of this round did to the links since those
+   // frames were entered.  The union, over the callbacks of this round, of the ancestor chains at callback entry contains every node with a live frame (frames entered
+   // since the previous callback are linked by intact links down to a frame that was already live then).
+   for (int i=self; i>=0; i=g_nodes[i]->parent) g_mayBeOnStack.insert(i);
+   const std::set<int> & onStack = g_mayBeOnStack;
    const uint32 n = g_bs->u8()%3;
    for (uint32 k=0;k<n;k++)
    {
-      const uint8_t op = g_bs->u8()%4; const int a = 1+g_bs->u8()%(N-1), b = g_bs->u8()%N; TNode * na = g_nodes[a]; TNode * nb = g_nodes[b];
+      const uint8_t op = g_bs->u8()%5; const int a = 1+g_bs->u8()%(N-1), b = g_bs->u8()%N; TNode * na = g_nodes[a]; TNode * nb = g_nodes[b];
       if ((!na->alive)||(!nb->alive)) continue;
       g_cbMut++; g_mutThisRound++; if (vf::Verbose()) fprintf(stderr, "    callback of %d: op %u a=%d b=%d\n", self, (unsigned)op, a, b);
       switch(op)
@@ -64,6 +70,7 @@ static void CallbackMutations(int self)
          case 1: if ((na->parent >= 0)&&((a == self)||(!IsAncestor(a, self)))) {g_nodes[na->parent]->RemovePulseChild(na); na->parent = -1; na->valid = false; g_touched[a] = true;} break;   // never detach a proper ancestor of the running callback
          case 2: if ((na->parent == -1)&&(!IsAncestor(a, b))&&(a != b)) {nb->PutPulseChild(na); na->parent = b; na->valid = false; g_touched[a] = true;} break;                               // attach a detached node anywhere
          case 3: if ((na->parent >= 0)&&(!IsAncestor(a, self))&&(!IsAncestor(a, b))&&(a != b)) {nb->PutPulseChild(na); na->parent = b; na->valid = false; g_touched[a] = true;} break;      // re-parent a node that is not on the call stack
+         case 4: if ((onStack.count(a) == 0)&&(g_bs->u8()%2 == 0)) {for (int i=0;i<N;i++) if (g_nodes[i]->alive && g_nodes[i]->parent == a) {g_nodes[i]->parent = -1; g_nodes[i]->valid = false; g_touched[i] = true;} delete na; g_nodes[a] = new TNode(a); g_touched[a] = true; g_cbDestroys++;} break;   // destroy a node that is not on the call stack (a sibling, a cousin, a subtree elsewhere): its children become detached
       }
    }
 }
@@ -73,7 +80,7 @@ static int Depth(int i) {int d = 0; while((i >= 0)&&(g_nodes[i]->parent >= 0)) {
 extern "C" int vf_run_case(const uint8_t * data, size_t size)
 {
    static CompleteSetupSystem * css = NULL; if (css == NULL) css = new CompleteSetupSystem;
-   BS bs(data, size); g_bs = &bs; g_now = 1000; g_allowCbMut = true;
+   BS bs(data, size); g_bs = &bs; g_now = 1000; g_allowCbMut = true; g_cbDestroys = 0;
    for (size_t i=0;i<g_nodes.size();i++) delete g_nodes[i]; g_nodes.clear();
    uint64_t h = 11; bool multiDepthPulse = false, cbMutCase = false, deferredCase = false; uint32 cycles = 0, totalPulses = 0; std::string trace; const bool wantTrace = vf::WantSample();
    Mgr mgr; const int N = 7; for (int i=0;i<N;i++) g_nodes.push_back(new TNode(i)); g_nodes[0]->parent = -2;
@@ -98,7 +105,7 @@ extern "C" int vf_run_case(const uint8_t * data, size_t size)
             uint64 expect = NEVER; for (int i=0;i<N;i++) if (IsAttached(i)) {TNode * n = g_nodes[i]; if (!n->valid) FAIL("attached node %d was not asked for its time before the wait", i); if (n->req < expect) expect = n->req;}
             if (m != expect) FAIL("root reports wake-up %llu, min of requested times is %llu", (unsigned long long)m, (unsigned long long)expect);
             const uint8_t adv = bs.u8()%4; if (adv == 0) g_now += 1; else if ((adv == 1)&&(m != NEVER)&&(m > g_now)) g_now = m; else if (adv == 2) g_now += 30; else g_now += 200;
-            g_pulsedThisRound.clear(); g_touched.assign(N, false); g_mutThisRound = 0; if (vf::Verbose()) {fprintf(stderr, "ROUND now=%llu:", (unsigned long long)g_now); for (int i=0;i<N;i++) fprintf(stderr, " [%d p=%d v=%d req=%lld]", i, g_nodes[i]->parent, (int)g_nodes[i]->valid, (long long)g_nodes[i]->req); fprintf(stderr, "\n");}
+            g_pulsedThisRound.clear(); g_touched.assign(N, false); g_mutThisRound = 0; g_mayBeOnStack.clear(); if (vf::Verbose()) {fprintf(stderr, "ROUND now=%llu:", (unsigned long long)g_now); for (int i=0;i<N;i++) fprintf(stderr, " [%d p=%d v=%d req=%lld]", i, g_nodes[i]->parent, (int)g_nodes[i]->valid, (long long)g_nodes[i]->req); fprintf(stderr, "\n");}
             mgr.DoPulse(*g_nodes[0], g_now);
             std::set<int> got(g_pulsedThisRound.begin(), g_pulsedThisRound.end());
             g_rounds++; if (g_mutThisRound) {g_roundsWithMut++; cbMutCase = true;}
@@ -128,7 +135,7 @@ extern "C" int vf_run_case(const uint8_t * data, size_t size)
    }
    vf::Count("pulse_cycles", cycles); vf::Count("callbacks_fired", totalPulses);
    if (multiDepthPulse) vf::Count("case_pulse_fired_nodes_at_two_depths");
-   if (cbMutCase) vf::Count("case_with_callback_mutation");
+   if (cbMutCase) vf::Count("case_with_callback_mutation"); if (g_cbDestroys) vf::Count("case_callback_destroyed_a_node_off_the_call_stack");
    if (deferredCase) vf::Count("case_with_deferred_due_node");
    if ((multiDepthPulse)||(cbMutCase)) {vf::NonTrivial(h); if (wantTrace) vf::Sample(trace);}
    return 0;
